@@ -26,7 +26,7 @@ static std::string q_of_double(double v)
     double m = std::frexp(v, &e);
     long long num = (long long)std::ldexp(m, 53);
     int ex = e - 53;
-    while (num % 2 == 0 && ex < 0) {
+    while (num % 2 == 0) {
         num /= 2;
         ex++;
     }
@@ -65,6 +65,12 @@ int main(int argc, char** argv)
             std::string s = "values";
             for (int i = 0; i < mr * mc; i++)
                 s += " " + q_of_double(env.weather_coefficient_at(i / mc, i % mc));
+            // the generated coefficients must also be APPLIED from now on: reproductive rate 4
+            // and suitability 1/4 under the weather of each cell (exact: powers of two)
+            s += "\n" + std::to_string(k) + " applied";
+            for (int i = 0; i < mr * mc; i++)
+                s += " " + q_of_double(env.influence_reproductive_rate_at(i / mc, i % mc, 4.0)) + ","
+                     + q_of_double(env.influence_suitability_at(i / mc, i % mc, 0.25));
             return s;
         });
         pops::verif::hooks().event = nullptr;
